@@ -142,9 +142,11 @@ func cmdWalConcIngest(c Cmd) (interface{}, error) {
 			time.Sleep(flushEvery)
 		}
 	}()
-	// Datapoint 0 of every goroutine is put sequentially first (unless warmup=false): the first metrics put of a tenant
-	// inserts into the unsynchronised usageStats map (pkg/usageStats UpdateMetricsStats); several FIRST puts racing there can
-	// end the process with "fatal error: concurrent map writes", which has nothing to do with the logs under test.
+	// Datapoint 0 of every goroutine is put sequentially first (unless warmup=false).  Historical reason: before /repo commit
+	// f822052 the first metrics put of a tenant inserted into an unsynchronised usageStats map and several FIRST puts racing
+	// there could end the process ("fatal error: concurrent map writes"), which has nothing to do with the logs under test.
+	// The insert is locked now; the warm-up is kept so that the scenario starts from the same state on older trees too and
+	// every goroutine's series exists before the concurrent phase (position 0 of each expected sequence is fixed).
 	if first == 1 {
 		for g := range groups {
 			s := groups[g][0]
